@@ -5,6 +5,10 @@ from common import (adt_fields, bodies_with_closures, field_accesses, impl_metho
                     outer_val, type_mentions)
 from mir import AnchorMissing, V, short
 
+
+def noref(v):
+    return V(v.kind, v.key, [p for p in v.projs if p not in ('ref', 'deref')])
+
 LEVEL_TEXT = (
     'Static field-coverage, sibling-agreement, prefix-freedom and type-walk rules over every manual '
     'Hash/PartialEq impl of the crate, the two hashable containers, fingerprint() and the identity-'
@@ -13,7 +17,7 @@ LEVEL_TEXT = (
     'fixed-seed one and a sort precedes the feed loop, no interior mutability / pointer identity in '
     'state types. Does not decide collision-freedom or value-level coherence of VectorClock.')
 
-FLOORS = {'C04-R1': 8, 'C04-R2': 4, 'C04-R3': 3, 'C04-R4': 6, 'C04-R5': 8}
+FLOORS = {'C04-R1': 8, 'C04-R2': 4, 'C04-R3': 3, 'C04-R4': 6, 'C04-R5': 8, 'C04-R6': 4}
 
 HASH = 'std::hash::Hash'
 PEQ = 'std::cmp::PartialEq'
@@ -98,6 +102,9 @@ def rule_r1_r2(ctx, F, rule1='C04-R1', rule2='C04-R2', only_field=None):
                     fed = []
                     for bb_ in bodies_with_closures(F, body):
                         for c in bb_.calls:
+                            if not c.is_('Hash::hash', 'Hasher::write', 'Hasher::write_u8', 'Hasher::write_u32',
+                                         'Hasher::write_u64', 'Hasher::write_usize'):
+                                continue
                             for a in c.args:
                                 if a['k'] not in ('copy', 'move'):
                                     continue
@@ -156,6 +163,44 @@ def hasher_root(F, b, call):
     return V(ov.kind, ov.key, [p for p in ov.projs if p not in ('deref', 'ref')])
 
 
+def length_is_element_count(F, b, c, adt):
+    """None if the value fed as length is recognisably the number of elements of this collection,
+    otherwise a description of what it is."""
+    lv = noref(b.val(c.args[1]))
+
+    def is_len_of(v):
+        cc = b.call_at(v.key) if v.kind == 'call' else None
+        if cc is None or not cc.short.endswith('::len'):
+            return None
+        return cc
+
+    def buffer_root(cc):
+        return noref(b.trace(b.val(cc.args[0]), ('Deref::deref', 'DerefMut::deref_mut', 'RefCell::borrow',
+                                               'RefCell::borrow_mut', 'RefCell::try_borrow_mut',
+                                               'Result::unwrap_or_else', 'Result::unwrap')))
+    cc = is_len_of(lv)
+    if cc is not None:
+        r = buffer_root(cc)
+        ob, ov = outer_val(F, b, r)
+        if ov.kind == 'arg' and ov.key == 1:
+            return None  # self.<collection>.len()
+        # a scratch buffer: it must have been cleared before it was filled
+        clears = [x for x in b.calls_to('Vec::clear')
+                  if buffer_root(x) == r and b.dominates(x.bb, cc.bb)]
+        if clears:
+            return None
+        return 'it is the length of a buffer (%r) that is not cleared before use and may hold entries of an ' \
+               'enclosing collection' % r
+    if lv.kind == 'bin' and lv.key[0] in ('Sub', 'SubWithOverflow', 'SubUnchecked'):
+        a, s_ = noref(lv.key[1]), noref(lv.key[2])
+        ca, cs = is_len_of(a), is_len_of(s_)
+        if ca is not None and cs is not None and buffer_root(ca) == buffer_root(cs) and b.dominates(cs.bb, ca.bb):
+            return None  # len(buffer) - len(buffer) at entry
+    if lv.kind == 'local':
+        return None  # a counter variable: not judged
+    return 'it is %r' % lv
+
+
 def rule_r3(ctx, F, rule='C04-R3'):
     ctx.doc(rule, 'a manual Hash impl that iterates a growable collection itself must feed a length '
                   '(write_usize / write_length_prefix / usize|slice|Vec::hash) to the OUTER hasher')
@@ -171,6 +216,7 @@ def rule_r3(ctx, F, rule='C04-R3'):
         iterates = False
         feeds = []
         partial = []
+        wrong_len = []
         for b in bodies:
             for c in b.calls:
                 if c.is_('HashSet::iter', 'HashMap::iter', 'Vec::iter', 'slice::iter',
@@ -187,12 +233,22 @@ def rule_r3(ctx, F, rule='C04-R3'):
                     if root == V('arg', 2):
                         if on_all_paths(F, b, c.bb):
                             feeds.append(c)
+                            if c.is_('Hasher::write_usize', 'Hasher::write_length_prefix'):
+                                why = length_is_element_count(F, b, c, adt)
+                                if why:
+                                    wrong_len.append((c, why))
                         else:
                             partial.append(c)
         if not iterates:
             ctx.ok(rule, 'delegates', body, '%s: collection fields are hashed by delegation to std '
                                             '(length-prefixed) impls' % adt['path'])
             continue
+        for (c, why) in wrong_len:
+            ctx.bad(rule, 'length-is-own-element-count', body,
+                    '%s::hash feeds a length that is not the number of its own elements: %s; equal collections '
+                    'can feed different lengths (or different ones the same)' % (adt['path'], why), span=c.span)
+        if feeds and not wrong_len:
+            ctx.ok(rule, 'length-is-own-element-count', body, 'the length fed is the collection\'s own element count')
         ctx.check(bool(feeds), rule, 'length-prefix', body,
                   good='%s: feeds a length to the outer hasher at %s' %
                        (adt['path'], feeds[0].span if feeds else ''),
@@ -275,6 +331,56 @@ def rule_r4(ctx, F, rule='C04-R4'):
                   bad='stable::hasher() does not derive from build_hasher()')
 
 
+def rule_r6(ctx, F, rule='C04-R6'):
+    ctx.doc(rule, 'the per-element closure of a container hash feeds every component of the element '
+                  '(set: the value; map: key AND value) to the per-element hasher')
+    for tyname, comps in (('util::HashableHashSet', [()]), ('util::HashableHashMap', [('.0',), ('.1',)])):
+        with ctx.rule(rule, tyname):
+            ims = [x for x in manual_impls(F, HASH) if x[1]['path'] == tyname]
+            if not ims:
+                raise AnchorMissing('manual Hash impl for %s' % tyname)
+            body = impl_method(F, ims[0][0], 'hash')
+            els = [b for b in bodies_with_closures(F, body) if b.calls_to('Hasher::finish')]
+            if len(els) != 1:
+                raise AnchorMissing('%s::hash: per-element closure' % tyname)
+            el = els[0]
+            ctx.touched(el)
+            fin = el.calls_to('Hasher::finish')[0]
+            hasher = V('call', el.calls_to('stable::hasher')[0].bb) if el.calls_to('stable::hasher') else None
+            fed_vals = []
+            for c in el.calls_to('Hash::hash'):
+                hv = el.val(c.args[1])
+                hroot = V(hv.kind, hv.key)
+                if hasher is not None and not (hroot == hasher or (hv.kind == 'local')):
+                    continue
+                v = noref(el.val(c.args[0]))
+                if v.kind in ('arg', 'call', 'local') and el.dominates(c.bb, fin.bb):
+                    fed_vals.append(v)
+            fed = set()
+            if comps == [()]:
+                if fed_vals:
+                    fed.add(())
+            else:
+                # key and value are the two components (.0 / .1) of one and the same item
+                for a in fed_vals:
+                    for b_ in fed_vals:
+                        if (a.kind, a.key) == (b_.kind, b_.key) and a.fields()[:-1] == b_.fields()[:-1] and \
+                                a.fields()[-1:] == ('.0',) and b_.fields()[-1:] == ('.1',):
+                            fed.add(('.0',))
+                            fed.add(('.1',))
+            missing = [c for c in comps if c not in fed]
+            ctx.check(not missing, rule, 'element-components', el,
+                      good='every component of an element is fed to its hasher before finish()',
+                      bad='%s::hash: the per-element hashing does not feed component(s) %s of the element: '
+                          'entries that differ only there (e.g. same key, different value) hash equally' %
+                          (tyname, ['value' if m == ('.1',) else 'key' if m == ('.0',) else 'element' for m in missing]))
+            # the element hash is that hasher's finish(): returned by the closure or pushed to the buffer
+            ok = (fin.dest['l'] == 0 and not fin.dest['p']) or any(
+                noref(el.val(c.args[1])) == V('call', fin.bb) for c in el.calls_to('Vec::push'))
+            ctx.check(ok, rule, 'element-hash-is-finish', el, good='the buffered value is inner_hasher.finish()',
+                      bad='%s::hash: the value buffered per element is not inner_hasher.finish()' % tyname)
+
+
 STATE_TYPES = [
     'actor::model_state::ActorModelState', 'actor::network::Network', 'actor::network::Envelope',
     'actor::timers::Timers', 'actor::model_state::RandomChoices', 'util::densenatmap::DenseNatMap',
@@ -324,3 +430,4 @@ def run(ctx):
     rule_r3(ctx, F)
     rule_r4(ctx, F)
     rule_r5(ctx, F)
+    rule_r6(ctx, F)
